@@ -805,6 +805,8 @@ class Engine:
         if self.feasible(body_st):
             for b in self.exec_block(s.body, body_st):
                 if b.kind in ("normal", "continue"):
+                    if spec is not None and spec.end_assume is not None:
+                        spec.end_assume(self, head, b.state, k)
                     if inv is not None:
                         for nm, f in inv(self, b.state, k + 1, pre):
                             self.oblige(f"{label}.inv.preserved.{nm}", b.state, f, loop=label)
@@ -1592,5 +1594,6 @@ def _concrete_index(j, n):
 class LoopSpec:
     """inv(engine, state, k, pre_state) -> [(name, formula)]; step(engine, head_state, end_state, k) -> [(name, formula)]"""
 
-    def __init__(self, inv=None, step=None, on_iter=None, self_writes=()):
+    def __init__(self, inv=None, step=None, on_iter=None, self_writes=(), end_assume=None):
         self.inv, self.step, self.on_iter, self.self_writes = inv, step, on_iter, tuple(self_writes)
+        self.end_assume = end_assume     # ghost updates at the end of an iteration (definitions by unfolding only)
